@@ -1,0 +1,310 @@
+//! Verification hooks. Only compiled with `--cfg unimock_verif`.
+//!
+//! Nothing in here changes the behaviour of the crate:
+//! * [DynClause] forwards to the real `Clause::deconstruct` of every clause pushed into it,
+//! * [snapshot] only reads,
+//! * [AtomicUsize], [LockScope] and [yield_point] call an externally installed callback (a no-op unless installed)
+//!   right before the real operation,
+//! * `MockFnInfo::verif_partial_by_default` is only called by external harness code.
+
+use core::panic::Location;
+use core::sync::atomic::Ordering;
+
+use once_cell::sync::OnceCell;
+
+use crate::alloc::{Box, String, ToString, Vec};
+use crate::clause::term::Sink;
+use crate::{Clause, MockFnInfo, Unimock};
+
+/// A clause whose number of sub-clauses is decided at run time.
+pub struct DynClause {
+    #[allow(clippy::type_complexity)]
+    items: Vec<Box<dyn FnOnce(&mut dyn Sink) -> Result<(), String>>>,
+}
+
+impl DynClause {
+    pub fn new() -> Self {
+        Self { items: Vec::new() }
+    }
+
+    pub fn push<C: Clause + 'static>(&mut self, clause: C) {
+        self.items
+            .push(Box::new(move |sink| clause.deconstruct(sink)));
+    }
+
+    pub fn len(&self) -> usize {
+        self.items.len()
+    }
+
+    pub fn is_empty(&self) -> bool {
+        self.items.is_empty()
+    }
+}
+
+impl Default for DynClause {
+    fn default() -> Self {
+        Self::new()
+    }
+}
+
+impl Clause for DynClause {
+    fn deconstruct(self, sink: &mut dyn Sink) -> Result<(), String> {
+        for item in self.items {
+            item(sink)?;
+        }
+        Ok(())
+    }
+}
+
+/// Where a yield point sits.
+#[derive(Clone, Copy, Debug, PartialEq, Eq, Hash, PartialOrd, Ord)]
+pub enum Site {
+    AtomicLoad,
+    AtomicStore,
+    AtomicSwap,
+    AtomicFetchAdd,
+    AtomicFetchSub,
+    AtomicCompareExchange,
+    AtomicFetchUpdate,
+    /// A thread wants the lock with the given address
+    LockWant(usize),
+    /// The lock with the given address has been released
+    LockReleased(usize),
+    /// `ValueChain::push_node` is about to try inserting into a cell
+    ChainInsert,
+}
+
+type HookFn = fn(Site, &'static Location<'static>);
+
+static HOOK: OnceCell<HookFn> = OnceCell::new();
+
+/// Install the process-wide yield callback. Can only be done once.
+pub fn install(hook: HookFn) -> bool {
+    HOOK.set(hook).is_ok()
+}
+
+#[track_caller]
+#[inline]
+pub(crate) fn yield_point(site: Site) {
+    if let Some(hook) = HOOK.get() {
+        hook(site, Location::caller());
+    }
+}
+
+/// Instrumented drop-in for `core::sync::atomic::AtomicUsize`.
+pub struct AtomicUsize(core::sync::atomic::AtomicUsize);
+
+impl AtomicUsize {
+    pub const fn new(value: usize) -> Self {
+        Self(core::sync::atomic::AtomicUsize::new(value))
+    }
+
+    /// Read without announcing anything (used by [snapshot]).
+    pub fn peek(&self) -> usize {
+        self.0.load(Ordering::SeqCst)
+    }
+
+    #[track_caller]
+    pub fn load(&self, order: Ordering) -> usize {
+        yield_point(Site::AtomicLoad);
+        self.0.load(order)
+    }
+
+    #[track_caller]
+    pub fn store(&self, value: usize, order: Ordering) {
+        yield_point(Site::AtomicStore);
+        self.0.store(value, order)
+    }
+
+    #[track_caller]
+    pub fn swap(&self, value: usize, order: Ordering) -> usize {
+        yield_point(Site::AtomicSwap);
+        self.0.swap(value, order)
+    }
+
+    #[track_caller]
+    pub fn fetch_add(&self, value: usize, order: Ordering) -> usize {
+        yield_point(Site::AtomicFetchAdd);
+        self.0.fetch_add(value, order)
+    }
+
+    #[track_caller]
+    pub fn fetch_sub(&self, value: usize, order: Ordering) -> usize {
+        yield_point(Site::AtomicFetchSub);
+        self.0.fetch_sub(value, order)
+    }
+
+    #[track_caller]
+    pub fn fetch_max(&self, value: usize, order: Ordering) -> usize {
+        yield_point(Site::AtomicFetchUpdate);
+        self.0.fetch_max(value, order)
+    }
+
+    #[track_caller]
+    pub fn compare_exchange(
+        &self,
+        current: usize,
+        new: usize,
+        success: Ordering,
+        failure: Ordering,
+    ) -> Result<usize, usize> {
+        yield_point(Site::AtomicCompareExchange);
+        self.0.compare_exchange(current, new, success, failure)
+    }
+
+    #[track_caller]
+    pub fn compare_exchange_weak(
+        &self,
+        current: usize,
+        new: usize,
+        success: Ordering,
+        failure: Ordering,
+    ) -> Result<usize, usize> {
+        yield_point(Site::AtomicCompareExchange);
+        // the strong variant: a spurious failure is not an interleaving of interest
+        self.0.compare_exchange(current, new, success, failure)
+    }
+
+    #[track_caller]
+    pub fn fetch_update<F>(
+        &self,
+        set_order: Ordering,
+        fetch_order: Ordering,
+        f: F,
+    ) -> Result<usize, usize>
+    where
+        F: FnMut(usize) -> Option<usize>,
+    {
+        yield_point(Site::AtomicFetchUpdate);
+        self.0.fetch_update(set_order, fetch_order, f)
+    }
+
+    pub fn get_mut(&mut self) -> &mut usize {
+        self.0.get_mut()
+    }
+
+    pub fn into_inner(self) -> usize {
+        self.0.into_inner()
+    }
+}
+
+impl Default for AtomicUsize {
+    fn default() -> Self {
+        Self::new(0)
+    }
+}
+
+impl core::fmt::Debug for AtomicUsize {
+    fn fmt(&self, f: &mut core::fmt::Formatter<'_>) -> core::fmt::Result {
+        core::fmt::Debug::fmt(&self.0, f)
+    }
+}
+
+/// Announces a lock acquisition / release around `MutexIsh::locked`.
+///
+/// It is the first local of `locked`, so it is dropped after the real guard.
+pub struct LockScope {
+    addr: usize,
+    location: &'static Location<'static>,
+}
+
+impl LockScope {
+    #[track_caller]
+    pub(crate) fn enter(addr: usize) -> Self {
+        yield_point(Site::LockWant(addr));
+        Self {
+            addr,
+            location: Location::caller(),
+        }
+    }
+}
+
+impl Drop for LockScope {
+    fn drop(&mut self) {
+        if let Some(hook) = HOOK.get() {
+            hook(Site::LockReleased(self.addr), self.location);
+        }
+    }
+}
+
+/// Read-only copy of the counters of one call pattern.
+#[derive(Clone, Debug, PartialEq, Eq)]
+pub struct PatternSnapshot {
+    pub trait_ident: &'static str,
+    pub method_ident: &'static str,
+    /// index within the method's pattern list
+    pub index: usize,
+    pub ordered: bool,
+    pub pat_debug: Option<&'static str>,
+    pub line: Option<u32>,
+    pub count: usize,
+    pub slot_range: (usize, usize),
+    pub expected_lower_bound: usize,
+    /// "Exact" | "AtLeast" | "AtLeastPlusOne"
+    pub exactness: &'static str,
+    pub n_responders: usize,
+}
+
+/// Read-only copy of the mutable state shared by a mock and its clones.
+#[derive(Clone, Debug, PartialEq, Eq)]
+pub struct Snapshot {
+    pub patterns: Vec<PatternSnapshot>,
+    pub ordered_index: usize,
+    pub errors: Vec<String>,
+    pub strong_count: usize,
+    pub partial: bool,
+}
+
+/// Take a snapshot. Must only be called at quiescent points (it takes the error-list lock).
+pub fn snapshot(unimock: &Unimock) -> Snapshot {
+    let state = &unimock.shared_state;
+    let mut patterns = Vec::new();
+
+    for fn_mocker in state.fn_mockers.values() {
+        for (index, pattern) in fn_mocker.call_patterns.iter().enumerate() {
+            let debug = pattern.input_matcher.matcher_debug;
+            let (expected_lower_bound, exactness) = pattern.call_counter.verif_expectation();
+            patterns.push(PatternSnapshot {
+                trait_ident: fn_mocker.info.path.trait_ident(),
+                method_ident: fn_mocker.info.path.method_ident(),
+                index,
+                ordered: fn_mocker.pattern_match_mode == crate::fn_mocker::PatternMatchMode::InOrder,
+                pat_debug: debug.map(|d| d.pat_debug),
+                line: debug.map(|d| d.line),
+                count: pattern.call_counter.verif_peek(),
+                slot_range: (
+                    pattern.ordered_call_index_range.start,
+                    pattern.ordered_call_index_range.end,
+                ),
+                expected_lower_bound,
+                exactness,
+                n_responders: pattern.responders.len(),
+            });
+        }
+    }
+
+    Snapshot {
+        patterns,
+        ordered_index: state.verif_ordered_index(),
+        errors: state
+            .panic_reasons
+            .locked(|reasons| reasons.iter().map(|e| e.to_string()).collect()),
+        strong_count: crate::alloc::Arc::strong_count(state),
+        partial: matches!(state.fallback_mode, crate::FallbackMode::Unmock),
+    }
+}
+
+/// Whether the instance is the original (not a clone).
+pub fn is_original(unimock: &Unimock) -> bool {
+    unimock.original_instance
+}
+
+impl MockFnInfo {
+    /// Mark a (hand-written) MockFn as partial by default.
+    pub const fn verif_partial_by_default(self) -> Self {
+        Self {
+            partial_by_default: true,
+            ..self
+        }
+    }
+}
